@@ -33,6 +33,13 @@ const LINES: &[(&str, &str)] = &[
     ("Title", "T two"),
     ("Artist", "A"),
     ("X-Custom", "u"),
+    // values with blanks at the edges, an exact repetition of an earlier value, an empty value
+    ("Title", "T one"),
+    ("Genre", "  two leading blanks"),
+    ("Genre", "trailing blank and tab \t"),
+    ("Comment", ""),
+    ("Performer", "A"),
+    ("Performer", "A"),
 ];
 
 #[derive(Clone, Debug, PartialEq, Eq)]
@@ -302,6 +309,7 @@ fn entry_pool() -> Vec<Entry> {
         song("http://x/y", &[9, 10, 12, 2]),
         song("d.flac", &[0, 1, 5]),
         song("e e.flac", &[4, 3, 11]),
+        song("  leading blanks.flac", &[9, 13, 14, 15, 17, 18, 16]),
         Entry::Directory { name: "dir".into(), lm: false },
         Entry::Directory { name: "dir two".into(), lm: true },
         Entry::Playlist { name: "p.m3u".into(), lm: false },
@@ -391,7 +399,7 @@ pub fn run(tier: Tier) -> i32 {
     cov.evaluations = acc.decodes;
     cov.distinct_nontrivial = acc.nontrivial;
     cov.rule = format!(
-        "one-song listings with every ordered selection of <= {} distinct lines out of 13 (duration, Time, two Range forms, Format, Last-Modified, Prio, Pos, Id, Title twice, Artist, unknown tag): {} shapes; all listings of 0..={} entries over 10 entry kinds (6 song shapes, directory / playlist with and without their own Last-Modified): {} listings; each decoded by playlistinfo, playlistinfo RANGE, find, listplaylistinfo, listallinfo (and currentsong for <= 1 song); plus every one of the protocol's 31 tag names (and an unknown one) as a repeated line of a song, one at a time and all together; every millisecond value 0.000..5.000 s (thorough: ..60.000 s) as duration and Range start; non-trivial = listings with several entries or a song with tags / duration",
+        "one-song listings with every ordered selection of <= {} distinct lines out of 19 (duration, Time, two Range forms, Format, Last-Modified, Prio, Pos, Id, Title twice, Artist, unknown tag): {} shapes; all listings of 0..={} entries over 10 entry kinds (6 song shapes, directory / playlist with and without their own Last-Modified): {} listings; each decoded by playlistinfo, playlistinfo RANGE, find, listplaylistinfo, listallinfo (and currentsong for <= 1 song); plus every one of the protocol's 31 tag names (and an unknown one) as a repeated line of a song, one at a time and all together; every millisecond value 0.000..5.000 s (thorough: ..60.000 s) as duration and Range start; non-trivial = listings with several entries or a song with tags / duration",
         tier.pick(4, 5),
         sel.len(),
         tier.pick(3, 4),
